@@ -1270,4 +1270,734 @@ theorem fronts_reach (env : Env) (A B : St) (hA : WF env A) (hB : WF env B) (htt
         intro hin
         exact heq (by rw [hBs, (mA k fB).mp hin])
 
+
+-- ------------------------------------------------------ diff: listeners --
+
+/-- block version of `foldT_flatMap_const` -/
+theorem foldT_flatMap_block {α : Type} (env : Env) (t : Target) (w : Option Val) (cs0 : List Cmd)
+    (h2 : foldT env t w cs0 = w) (g : α → List Cmd) (P : α → Prop) (L : List α)
+    (hskip : ∀ x ∈ L, ¬ P x → ∀ c ∈ g x, tgt c ≠ some t) (hhit : ∀ x ∈ L, P x → g x = cs0) :
+    foldT env t w (L.flatMap g) = w ∧
+    ∀ v0, foldT env t v0 cs0 = w → (∃ x ∈ L, P x) → foldT env t v0 (L.flatMap g) = w := by
+  induction L with
+  | nil => exact ⟨rfl, fun v0 _ h => by simp at h⟩
+  | cons x L ih =>
+    have ihL := ih (fun y hy => hskip y (by simp [hy])) (fun y hy => hhit y (by simp [hy]))
+    by_cases hp : P x
+    · have hg := hhit x (by simp) hp
+      refine ⟨?_, ?_⟩
+      · simp only [List.flatMap_cons, foldT_append, hg, h2]; exact ihL.1
+      · intro v0 h1 _
+        simp only [List.flatMap_cons, foldT_append, hg, h1]; exact ihL.1
+    · have hs := hskip x (by simp) hp
+      refine ⟨?_, ?_⟩
+      · simp only [List.flatMap_cons, foldT_append, foldT_skip env t _ _ hs]; exact ihL.1
+      · intro v0 h1 hex
+        simp only [List.flatMap_cons, foldT_append, foldT_skip env t _ _ hs]
+        apply ihL.2 v0 h1
+        obtain ⟨y, hy, hpy⟩ := hex
+        rcases List.mem_cons.mp hy with rfl | hy
+        · exact absurd hpy hp
+        · exact ⟨y, hy, hpy⟩
+
+/-- the value has the shape of a listener of type `ty` -/
+def Typed : LType → Val → Prop
+  | .http, .hl _ => True
+  | .https, .hl _ => True
+  | .tcp, .tl _ => True
+  | .udp, .ul _ => True
+  | _, _ => False
+
+def rawAddr : Val → Nat
+  | .hl l => l.addr
+  | .tl l => l.addr
+  | .ul l => l.addr
+  | _ => 0
+
+def setAct (b : Bool) : Val → Val
+  | .hl l => .hl { l with active := b }
+  | .tl l => .tl { l with active := b }
+  | .ul l => .ul { l with active := b }
+  | v => v
+
+theorem setAct_self (v : Val) : setAct (listenerActive (some v)) v = v := by
+  cases v <;> simp [setAct, listenerActive] <;> rename_i l <;> cases l <;> rfl
+
+theorem setAct_setAct (b c : Bool) (v : Val) : setAct b (setAct c v) = setAct b v := by
+  cases v <;> rfl
+
+theorem deactivated_eq (v : Val) : deactivated v = setAct false v := by cases v <;> rfl
+
+theorem listenerActive_setAct (b : Bool) (ty : LType) (v : Val) (h : Typed ty v) :
+    listenerActive (some (setAct b v)) = b := by
+  cases ty <;> cases v <;> simp [Typed] at h <;> rfl
+
+theorem setActive_typed (b : Bool) (ty : LType) (v : Val) (h : Typed ty v) :
+    setActive b (some v) = (some (setAct b v), true) := by
+  cases ty <;> cases v <;> simp [Typed] at h <;> rfl
+
+theorem typed_setAct (b : Bool) (ty : LType) (v : Val) (h : Typed ty v) : Typed ty (setAct b v) := by
+  cases ty <;> cases v <;> simp [Typed] at h ⊢ <;> trivial
+
+theorem rawAddr_setAct (b : Bool) (v : Val) : rawAddr (setAct b v) = rawAddr v := by cases v <;> rfl
+
+/-- the `Add…Listener` request for a typed value: addresses the listener's own key, fills an
+    absent entry with the value as given -/
+theorem addListenerCmd_typed (env : Env) (ty : LType) (v : Val) (h : Typed ty v) :
+    ∃ c, addListenerCmd ty v = [c] ∧ tgt c = some (listenerTarget ty (rawAddr v)) ∧
+      loc env c none = (some v, true) ∧ ∀ x, (loc env c (some x)).1 = some x := by
+  cases ty <;> cases v <;> simp [Typed] at h <;>
+    exact ⟨_, rfl, by simp [tgt, listenerTarget, rawAddr, canon, addrMod], rfl, fun x => rfl⟩
+
+theorem listenerTarget_canon (ty : LType) (a : Nat) : listenerTarget ty (canon a) = listenerTarget ty a := by
+  cases ty <;> simp [listenerTarget, canon, addrMod]
+
+theorem listenerTarget_inj (ty : LType) (a b : Nat) (h : listenerTarget ty a = listenerTarget ty b) : canon a = canon b := by
+  cases ty <;> simpa [listenerTarget] using h
+
+/-- the (canonical) key `k` of listener map `ty` -/
+def KX : LType → Nat → Target
+  | .http, k => .httpL k
+  | .https, k => .httpsL k
+  | .tcp, k => .tcpL k
+  | .udp, k => .udpL k
+
+theorem listenerTarget_eq (ty : LType) (a : Nat) : listenerTarget ty a = KX ty (canon a) := by cases ty <;> rfl
+
+theorem KX_inj (ty : LType) (a b : Nat) (h : KX ty a = KX ty b) : a = b := by
+  cases ty <;> simpa [KX] using h
+
+theorem canon_canon (a : Nat) : canon (canon a) = canon a := by simp [canon, addrMod]
+
+/-- `keys` selects the keys of listener map `ty` -/
+def KeysFor (ty : LType) (keys : Target → Option Nat) : Prop := ∀ t' k', keys t' = some k' ↔ t' = KX ty k'
+
+theorem keysFor_tcp : KeysFor .tcp isTcpL := by intro t' k'; cases t' <;> simp [isTcpL, KX]
+theorem keysFor_udp : KeysFor .udp isUdpL := by intro t' k'; cases t' <;> simp [isUdpL, KX]
+theorem keysFor_http : KeysFor .http isHttpL := by intro t' k'; cases t' <;> simp [isHttpL, KX]
+theorem keysFor_https : KeysFor .https isHttpsL := by intro t' k'; cases t' <;> simp [isHttpsL, KX]
+
+theorem mem_keysOf (s : St) (hnd : (s.map (·.1)).Nodup) (ty : LType) (keys : Target → Option Nat)
+    (hk : KeysFor ty keys) (k : Nat) : k ∈ keysOf s keys ↔ ∃ v, look s (KX ty k) = some v := by
+  simp only [keysOf, List.mem_filterMap]
+  constructor
+  · rintro ⟨e, he, h⟩
+    have := (hk e.1 k).mp h
+    obtain ⟨t', v⟩ := e; simp at this; subst this
+    exact ⟨v, look_of_mem s hnd _ _ he⟩
+  · rintro ⟨v, hv⟩
+    exact ⟨_, mem_of_look s _ _ hv, (hk _ k).mpr rfl⟩
+
+/-- what `WF` says about a listener entry -/
+theorem wf_listener (env : Env) (s : St) (hs : WF env s) (ty : LType) (k : Nat) (v : Val)
+    (h : look s (KX ty k) = some v) : Typed ty v ∧ canon (rawAddr v) = k := by
+  have := hs.2 _ (mem_of_look s _ _ h)
+  cases ty <;> cases v <;> simp only [KX, EntryOK] at this <;> try (exact False.elim this)
+  all_goals exact ⟨trivial, this⟩
+
+theorem loc_rm (env : Env) (ty : LType) (k : Nat) (w : Option Val) :
+    (loc env (.removeListener (some ty) k) w).1 = none := by
+  cases w <;> rfl
+
+theorem loc_act (env : Env) (b : Bool) (ty : LType) (k : Nat) (v : Val) (h : Typed ty v) :
+    (loc env (if b then Cmd.activate (some ty) k else Cmd.deactivate (some ty) k) (some v)).1 = some (setAct b v) := by
+  cases b <;> simp [loc, setActive_typed _ ty v h]
+
+/-- commands produced for another key do not address `KX ty k` -/
+theorem other_key_skip (ty : LType) (k x : Nat) (hne : ¬ x = k) :
+    ∀ a', canon a' = x → listenerTarget ty a' ≠ KX ty k := by
+  intro a' ha h
+  rw [listenerTarget_eq, ha] at h
+  exact hne (KX_inj ty _ _ h)
+
+theorem key_canon (env : Env) (ty : LType) (keys : Target → Option Nat) (hk : KeysFor ty keys)
+    (s : St) (hs : WF env s) (x : Nat) (hx : x ∈ keysOf s keys) : canon x = x := by
+  obtain ⟨v, hv⟩ := (mem_keysOf s hs.1 ty keys hk x).mp hx
+  have := (wf_listener env s hs ty x v hv).2
+  rw [← this, canon_canon]
+
+theorem removedL_fold (env : Env) (A B : St) (hA : WF env A) (hB : WF env B) (ty : LType)
+    (keys : Target → Option Nat) (hk : KeysFor ty keys) (k : Nat) :
+    foldT env (KX ty k) (look A (KX ty k)) (diffRemovedL ty A B keys) =
+      if (look A (KX ty k)).isSome ∧ look B (KX ty k) = none then none else look A (KX ty k) := by
+  have hskip : ∀ x ∈ (keysOf A keys).filter (fun k => !(keysOf B keys).contains k), ¬ x = k →
+      ∀ c ∈ (if listenerActive (look A (listenerTarget ty x)) then [Cmd.deactivate (some ty) x] else []) ++
+        [Cmd.removeListener (some ty) x], tgt c ≠ some (KX ty k) := by
+    intro x hx hne c hc
+    have hxa := (List.mem_filter.mp hx).1
+    have hcx := key_canon env ty keys hk A hA x hxa
+    have : tgt c = some (listenerTarget ty x) := by
+      simp only [List.mem_append, List.mem_cons, List.not_mem_nil, or_false] at hc
+      rcases hc with hc | rfl
+      · split at hc
+        · simp at hc; subst hc; rfl
+        · simp at hc
+      · rfl
+    rw [this]; intro h; injection h with h
+    exact other_key_skip ty k x hne x hcx h
+  unfold diffRemovedL
+  by_cases hcase : (look A (KX ty k)).isSome ∧ look B (KX ty k) = none
+  · rw [if_pos hcase]
+    obtain ⟨v, hv⟩ := Option.isSome_iff_exists.mp hcase.1
+    have hty := wf_listener env A hA ty k v hv
+    have hck : canon k = k := by rw [← hty.2, canon_canon]
+    have hlt : listenerTarget ty k = KX ty k := by rw [listenerTarget_eq, hck]
+    have hblock : ∀ w, foldT env (KX ty k) w
+        ((if listenerActive (look A (listenerTarget ty k)) then [Cmd.deactivate (some ty) k] else []) ++
+          [Cmd.removeListener (some ty) k]) = none := by
+      intro w
+      rw [foldT_append]
+      simp only [foldT, List.foldl_cons, List.foldl_nil, tgt, Option.map, hlt, if_true]
+      exact loc_rm env ty k _
+    refine (foldT_flatMap_block env (KX ty k) none _ (hblock none) _ (fun x => x = k) _ hskip ?_).2 _ (hblock _) ?_
+    · intro x _ hx; subst hx; rfl
+    · refine ⟨k, List.mem_filter.mpr ⟨(mem_keysOf A hA.1 ty keys hk k).mpr ⟨v, hv⟩, ?_⟩, rfl⟩
+      simp only [Bool.not_eq_true', List.contains_eq_mem, decide_eq_false_iff_not]
+      intro hin
+      obtain ⟨v', hv'⟩ := (mem_keysOf B hB.1 ty keys hk k).mp hin
+      rw [hcase.2] at hv'; cases hv'
+  · rw [if_neg hcase]
+    apply foldT_flatMap_skip
+    intro x hx c hc
+    by_cases hxk : x = k
+    · exfalso; subst hxk
+      apply hcase
+      have h1 := (mem_keysOf A hA.1 ty keys hk x).mp (List.mem_filter.mp hx).1
+      have h2 := (List.mem_filter.mp hx).2
+      simp only [Bool.not_eq_true', List.contains_eq_mem, decide_eq_false_iff_not] at h2
+      refine ⟨by obtain ⟨v, hv⟩ := h1; simp [hv], ?_⟩
+      cases hb : look B (KX ty x) with
+      | none => rfl
+      | some v => exact absurd ((mem_keysOf B hB.1 ty keys hk x).mpr ⟨v, hb⟩) h2
+    · exact hskip x hx hxk c hc
+
+/-- the block `diff` emits for an added listener -/
+theorem added_block (env : Env) (ty : LType) (k : Nat) (v : Val) (hty : Typed ty v) (hkv : canon (rawAddr v) = k)
+    (w : Option Val) (hw : w = none ∨ w = some v) :
+    foldT env (KX ty k) w (addListenerCmd ty v ++ (if listenerActive (some v) then [Cmd.activate (some ty) k] else [])) = some v := by
+  obtain ⟨c, hc, htc, hl1, hl2⟩ := addListenerCmd_typed env ty v hty
+  have hck : canon k = k := by rw [← hkv, canon_canon]
+  have htc' : tgt c = some (KX ty k) := by rw [htc, listenerTarget_eq, hkv]
+  have h1 : (loc env c w).1 = some v := by
+    rcases hw with rfl | rfl
+    · rw [hl1]
+    · exact hl2 v
+  rw [hc, foldT_append]
+  simp only [foldT, List.foldl_cons, List.foldl_nil, htc', if_true, h1]
+  by_cases ha : listenerActive (some v) = true
+  · have hact := loc_act env true ty k v hty
+    simp only [if_true] at hact
+    simp only [ha, if_true, List.foldl_cons, List.foldl_nil, tgt, Option.map, listenerTarget_eq, hck, hact]
+    rw [← ha, setAct_self]
+  · simp [ha]
+
+theorem addedL_skip (env : Env) (A B : St) (hB : WF env B) (ty : LType) (keys : Target → Option Nat)
+    (hk : KeysFor ty keys) (k : Nat) :
+    ∀ x ∈ addedKeys A B keys, ¬ x = k →
+      ∀ c ∈ (match look B (listenerTarget ty x) with
+              | some v => addListenerCmd ty v ++ (if listenerActive (some v) then [Cmd.activate (some ty) x] else [])
+              | none => []), tgt c ≠ some (KX ty k) := by
+  intro x hx hne c hc
+  have hxb := (List.mem_filter.mp hx).1
+  have hcx := key_canon env ty keys hk B hB x hxb
+  have hlt : listenerTarget ty x = KX ty x := by rw [listenerTarget_eq, hcx]
+  obtain ⟨v, hv⟩ := (mem_keysOf B hB.1 ty keys hk x).mp hxb
+  have hty := wf_listener env B hB ty x v hv
+  rw [hlt, hv] at hc
+  simp only [List.mem_append] at hc
+  obtain ⟨c0, hc0, htc, _⟩ := addListenerCmd_typed env ty v hty.1
+  have : tgt c = some (KX ty x) := by
+    rcases hc with hc | hc
+    · rw [hc0] at hc; simp at hc; subst hc; rw [htc, listenerTarget_eq, hty.2]
+    · split at hc
+      · simp at hc; subst hc; simp [tgt, hlt]
+      · simp at hc
+  rw [this]; intro h; injection h with h; exact hne (KX_inj ty _ _ h)
+
+theorem addedL_fold (env : Env) (A B : St) (hA : WF env A) (hB : WF env B) (ty : LType)
+    (keys : Target → Option Nat) (hk : KeysFor ty keys) (k : Nat) (w : Option Val)
+    (hw : look A (KX ty k) = none → w = none) :
+    foldT env (KX ty k) w (diffAddedL ty A B keys) =
+      if look A (KX ty k) = none ∧ (look B (KX ty k)).isSome then look B (KX ty k) else w := by
+  unfold diffAddedL
+  by_cases hcase : look A (KX ty k) = none ∧ (look B (KX ty k)).isSome
+  · rw [if_pos hcase]
+    obtain ⟨v, hv⟩ := Option.isSome_iff_exists.mp hcase.2
+    have hty := wf_listener env B hB ty k v hv
+    have hck : canon k = k := by rw [← hty.2, canon_canon]
+    have hlt : listenerTarget ty k = KX ty k := by rw [listenerTarget_eq, hck]
+    rw [hw hcase.1, hv]
+    refine (foldT_flatMap_block env (KX ty k) (some v) _ (added_block env ty k v hty.1 hty.2 _ (Or.inr rfl)) _
+      (fun x => x = k) _ (addedL_skip env A B hB ty keys hk k) ?_).2 _ (added_block env ty k v hty.1 hty.2 _ (Or.inl rfl)) ?_
+    · intro x _ hx; subst hx; simp only [hlt, hv]
+    · refine ⟨k, List.mem_filter.mpr ⟨(mem_keysOf B hB.1 ty keys hk k).mpr ⟨v, hv⟩, ?_⟩, rfl⟩
+      simp only [Bool.not_eq_true', List.contains_eq_mem, decide_eq_false_iff_not]
+      intro hin
+      obtain ⟨v', hv'⟩ := (mem_keysOf A hA.1 ty keys hk k).mp hin
+      rw [hcase.1] at hv'; cases hv'
+  · rw [if_neg hcase]
+    apply foldT_flatMap_skip
+    intro x hx c hc
+    by_cases hxk : x = k
+    · exfalso; subst hxk
+      apply hcase
+      have hb := (mem_keysOf B hB.1 ty keys hk x).mp (List.mem_filter.mp hx).1
+      have ha := (List.mem_filter.mp hx).2
+      simp only [Bool.not_eq_true', List.contains_eq_mem, decide_eq_false_iff_not] at ha
+      refine ⟨?_, by obtain ⟨v, hv⟩ := hb; simp [hv]⟩
+      cases h : look A (KX ty x) with
+      | none => rfl
+      | some v => exact absurd ((mem_keysOf A hA.1 ty keys hk x).mpr ⟨v, h⟩) ha
+    · exact addedL_skip env A B hB ty keys hk k x hx hxk c hc
+
+theorem setAct_false_of_inactive (ty : LType) (v : Val) (h : listenerActive (some v) = false) : setAct false v = v := by
+  have := setAct_self v; rw [h] at this; exact this
+
+theorem setAct_true_of_active (v : Val) (h : listenerActive (some v) = true) : setAct true v = v := by
+  have := setAct_self v; rw [h] at this; exact this
+
+def commonBlock (ty : LType) (k : Nat) (mine theirs : Val) : List Cmd :=
+  (if mine ≠ theirs then
+    [Cmd.removeListener (some ty) k] ++ addListenerCmd ty (deactivated theirs) ++
+    (if listenerActive (some theirs) then [Cmd.activate (some ty) k] else [])
+   else []) ++
+  (if listenerActive (some mine) && !listenerActive (some theirs) then [Cmd.deactivate (some ty) k] else [])
+
+theorem foldT_cons' (env : Env) (t : Target) (v : Option Val) (c : Cmd) (cs : List Cmd) :
+    foldT env t v (c :: cs) = foldT env t (if tgt c = some t then (loc env c v).1 else v) cs := rfl
+
+theorem foldT_nil' (env : Env) (t : Target) (v : Option Val) : foldT env t v [] = v := rfl
+
+theorem common_block (env : Env) (ty : LType) (k : Nat) (m th : Val) (hth : Typed ty th)
+    (hkth : canon (rawAddr th) = k) (x : Val) (hx : x = m ∨ x = th) :
+    foldT env (KX ty k) (some x) (commonBlock ty k m th) = some th := by
+  have hck : canon k = k := by rw [← hkth, canon_canon]
+  have hlt : listenerTarget ty k = KX ty k := by rw [listenerTarget_eq, hck]
+  have hdty : Typed ty (setAct false th) := typed_setAct false ty th hth
+  obtain ⟨c, hc, htc, hl1, _⟩ := addListenerCmd_typed env ty (setAct false th) hdty
+  have htc' : tgt c = some (KX ty k) := by rw [htc, listenerTarget_eq, rawAddr_setAct, hkth]
+  have tRm : tgt (Cmd.removeListener (some ty) k) = some (KX ty k) := by show some (listenerTarget ty k) = _; rw [hlt]
+  have tAct : tgt (Cmd.activate (some ty) k) = some (KX ty k) := by show some (listenerTarget ty k) = _; rw [hlt]
+  have tDe : tgt (Cmd.deactivate (some ty) k) = some (KX ty k) := by show some (listenerTarget ty k) = _; rw [hlt]
+  have hAct : ∀ v, Typed ty v → (loc env (Cmd.activate (some ty) k) (some v)).1 = some (setAct true v) := by
+    intro v hv; have := loc_act env true ty k v hv; simpa using this
+  have hDe : ∀ v, Typed ty v → (loc env (Cmd.deactivate (some ty) k) (some v)).1 = some (setAct false v) := by
+    intro v hv; have := loc_act env false ty k v hv; simpa using this
+  unfold commonBlock
+  rw [foldT_append]
+  by_cases hne : m = th
+  · subst hne
+    have hxm : x = m := by rcases hx with h | h <;> exact h
+    subst hxm
+    simp [foldT]
+  · have first : foldT env (KX ty k) (some x)
+        (if m ≠ th then [Cmd.removeListener (some ty) k] ++ addListenerCmd ty (deactivated th) ++
+          (if listenerActive (some th) then [Cmd.activate (some ty) k] else []) else []) = some th := by
+      rw [if_pos hne, deactivated_eq, hc]
+      simp only [List.cons_append, List.nil_append, foldT_cons', tRm, if_true, loc_rm, htc', hl1]
+      by_cases ha : listenerActive (some th) = true
+      · simp only [ha, if_true, foldT_cons', foldT_nil', tAct, hAct _ hdty, setAct_setAct]
+        rw [setAct_true_of_active th ha]
+      · have ha' : listenerActive (some th) = false := by simpa using ha
+        simp only [ha', Bool.false_eq_true, if_false, foldT_nil']
+        rw [setAct_false_of_inactive ty th ha']
+    rw [first]
+    by_cases hd : (listenerActive (some m) && !listenerActive (some th)) = true
+    · have ha' : listenerActive (some th) = false := by
+        simp only [Bool.and_eq_true, Bool.not_eq_true'] at hd; exact hd.2
+      simp only [hd, if_true, foldT_cons', foldT_nil', tDe, hDe _ hth]
+      rw [setAct_false_of_inactive ty th ha']
+    · simp only [hd, Bool.false_eq_true, if_false, foldT_nil']
+
+theorem commonL_fold (env : Env) (A B : St) (hA : WF env A) (hB : WF env B) (ty : LType)
+    (keys : Target → Option Nat) (hk : KeysFor ty keys) (k : Nat) (w : Option Val)
+    (hw : (look A (KX ty k)).isSome → (look B (KX ty k)).isSome → w = look A (KX ty k)) :
+    foldT env (KX ty k) w (diffCommonL ty A B keys) =
+      if (look A (KX ty k)).isSome ∧ (look B (KX ty k)).isSome then look B (KX ty k) else w := by
+  -- the commands emitted for a common key `x`
+  have hg : ∀ x ∈ (keysOf A keys).filter (fun k => (keysOf B keys).contains k),
+      ∃ m th, look A (KX ty x) = some m ∧ look B (KX ty x) = some th ∧ canon x = x ∧
+        (match look A (listenerTarget ty x), look B (listenerTarget ty x) with
+          | some mine, some theirs =>
+            (if mine ≠ theirs then
+              [Cmd.removeListener (some ty) x] ++ addListenerCmd ty (deactivated theirs) ++
+              (if listenerActive (some theirs) then [Cmd.activate (some ty) x] else [])
+             else []) ++
+            (if listenerActive (some mine) && !listenerActive (some theirs) then [Cmd.deactivate (some ty) x] else [])
+          | _, _ => []) = commonBlock ty x m th := by
+    intro x hx
+    have hxa := (List.mem_filter.mp hx).1
+    have hxb : x ∈ keysOf B keys := by simpa using (List.mem_filter.mp hx).2
+    obtain ⟨m, hm⟩ := (mem_keysOf A hA.1 ty keys hk x).mp hxa
+    obtain ⟨th, hth⟩ := (mem_keysOf B hB.1 ty keys hk x).mp hxb
+    have hcx := key_canon env ty keys hk A hA x hxa
+    refine ⟨m, th, hm, hth, hcx, ?_⟩
+    rw [listenerTarget_eq, hcx, hm, hth]
+    rfl
+  have hskip : ∀ x ∈ (keysOf A keys).filter (fun k => (keysOf B keys).contains k), ¬ x = k →
+      ∀ c ∈ (match look A (listenerTarget ty x), look B (listenerTarget ty x) with
+          | some mine, some theirs =>
+            (if mine ≠ theirs then
+              [Cmd.removeListener (some ty) x] ++ addListenerCmd ty (deactivated theirs) ++
+              (if listenerActive (some theirs) then [Cmd.activate (some ty) x] else [])
+             else []) ++
+            (if listenerActive (some mine) && !listenerActive (some theirs) then [Cmd.deactivate (some ty) x] else [])
+          | _, _ => []), tgt c ≠ some (KX ty k) := by
+    intro x hx hne c hc
+    obtain ⟨m, th, hm, hth, hcx, hblock⟩ := hg x hx
+    rw [hblock] at hc
+    have hlt : listenerTarget ty x = KX ty x := by rw [listenerTarget_eq, hcx]
+    have htyp := wf_listener env B hB ty x th hth
+    obtain ⟨c0, hc0, htc, _⟩ := addListenerCmd_typed env ty (setAct false th) (typed_setAct false ty th htyp.1)
+    have : tgt c = some (KX ty x) := by
+      simp only [commonBlock, deactivated_eq, hc0, List.mem_append] at hc
+      rcases hc with hc | hc
+      · split at hc
+        · simp only [List.mem_append, List.mem_cons, List.not_mem_nil, or_false] at hc
+          rcases hc with (rfl | rfl) | hc
+          · show some (listenerTarget ty x) = _; rw [hlt]
+          · rw [htc, listenerTarget_eq, rawAddr_setAct, htyp.2]
+          · split at hc
+            · simp at hc; subst hc; show some (listenerTarget ty x) = _; rw [hlt]
+            · simp at hc
+        · simp at hc
+      · split at hc
+        · simp at hc; subst hc; show some (listenerTarget ty x) = _; rw [hlt]
+        · simp at hc
+    rw [this]; intro h; injection h with h; exact hne (KX_inj ty _ _ h)
+  unfold diffCommonL
+  by_cases hcase : (look A (KX ty k)).isSome ∧ (look B (KX ty k)).isSome
+  · rw [if_pos hcase]
+    obtain ⟨m, hm⟩ := Option.isSome_iff_exists.mp hcase.1
+    obtain ⟨th, hth⟩ := Option.isSome_iff_exists.mp hcase.2
+    have htyp := wf_listener env B hB ty k th hth
+    have hkin : k ∈ (keysOf A keys).filter (fun k => (keysOf B keys).contains k) :=
+      List.mem_filter.mpr ⟨(mem_keysOf A hA.1 ty keys hk k).mpr ⟨m, hm⟩,
+        by simpa using (mem_keysOf B hB.1 ty keys hk k).mpr ⟨th, hth⟩⟩
+    rw [hw hcase.1 hcase.2, hm, hth]
+    refine (foldT_flatMap_block env (KX ty k) (some th) (commonBlock ty k m th)
+      (common_block env ty k m th htyp.1 htyp.2 th (Or.inr rfl)) _ (fun x => x = k) _ hskip ?_).2 _
+      (common_block env ty k m th htyp.1 htyp.2 m (Or.inl rfl)) ⟨k, hkin, rfl⟩
+    intro x hx hxk; subst hxk
+    obtain ⟨m', th', hm', hth', _, hblock⟩ := hg x hx
+    rw [hblock]
+    rw [hm] at hm'; rw [hth] at hth'
+    injection hm' with hm'; injection hth' with hth'; subst hm'; subst hth'; rfl
+  · rw [if_neg hcase]
+    apply foldT_flatMap_skip
+    intro x hx c hc
+    by_cases hxk : x = k
+    · exfalso; subst hxk
+      obtain ⟨m, th, hm, hth, _, _⟩ := hg x hx
+      exact hcase ⟨by simp [hm], by simp [hth]⟩
+    · exact hskip x hx hxk c hc
+
+def reactBlock (ty : LType) (b : St) (k : Nat) : List Cmd :=
+  match look b (listenerTarget ty k) with
+  | some (.tl l) => if l.active then [Cmd.activate (some ty) l.addr] else []
+  | some (.ul l) => if l.active then [Cmd.activate (some ty) l.addr] else []
+  | _ => []
+
+theorem diffReactivate_eq (ty : LType) (a b : St) (keys : Target → Option Nat) :
+    diffReactivate ty a b keys = (addedKeys a b keys).flatMap (reactBlock ty b) := rfl
+
+theorem reactivate_fold (env : Env) (A B : St) (hA : WF env A) (hB : WF env B) (ty : LType)
+    (keys : Target → Option Nat) (hk : KeysFor ty keys) (k : Nat) (w : Option Val)
+    (hw : (look B (KX ty k)).isSome → w = look B (KX ty k)) :
+    foldT env (KX ty k) w (diffReactivate ty A B keys) = w := by
+  rw [diffReactivate_eq]
+  -- every block is either empty or one Activate of an active listener on its own key
+  have hblock : ∀ x ∈ addedKeys A B keys, ∃ v, look B (KX ty x) = some v ∧ canon x = x ∧ Typed ty v ∧ canon (rawAddr v) = x ∧
+      ((reactBlock ty B x) = [] ∨
+       (listenerActive (some v) = true ∧
+        (reactBlock ty B x) = [Cmd.activate (some ty) (rawAddr v)])) := by
+    intro x hx
+    have hxb := (List.mem_filter.mp hx).1
+    obtain ⟨v, hv⟩ := (mem_keysOf B hB.1 ty keys hk x).mp hxb
+    have hcx := key_canon env ty keys hk B hB x hxb
+    have htyp := wf_listener env B hB ty x v hv
+    refine ⟨v, hv, hcx, htyp.1, htyp.2, ?_⟩
+    unfold reactBlock
+    rw [listenerTarget_eq, hcx, hv]
+    cases v with
+    | tl l => by_cases ha : l.active = true
+              · right; exact ⟨ha, by simp [ha, rawAddr]⟩
+              · left; simp [ha]
+    | ul l => by_cases ha : l.active = true
+              · right; exact ⟨ha, by simp [ha, rawAddr]⟩
+              · left; simp [ha]
+    | _ => left; rfl
+  by_cases hin : k ∈ addedKeys A B keys
+  · obtain ⟨v, hv, hck, htyp, hkv, hb⟩ := hblock k hin
+    have hwv : w = some v := by rw [hw (by simp [hv]), hv]
+    have hskip : ∀ x ∈ addedKeys A B keys, ¬ x = k → ∀ c ∈ (reactBlock ty B x), tgt c ≠ some (KX ty k) := by
+      intro x hx hne c hc
+      obtain ⟨v', _, _, _, hkv', hb'⟩ := hblock x hx
+      rcases hb' with hb' | ⟨_, hb'⟩
+      · rw [hb'] at hc; simp at hc
+      · rw [hb'] at hc; simp at hc; subst hc
+        show some (listenerTarget ty (rawAddr v')) ≠ _
+        rw [listenerTarget_eq, hkv']
+        intro h; injection h with h; exact hne (KX_inj ty _ _ h)
+    rcases hb with hb | ⟨ha, hb⟩
+    · apply foldT_flatMap_skip
+      intro x hx c hc
+      by_cases hxk : x = k
+      · subst hxk; rw [hb] at hc; simp at hc
+      · exact hskip x hx hxk c hc
+    · have hstep : foldT env (KX ty k) (some v) [Cmd.activate (some ty) (rawAddr v)] = some v := by
+        have ht : tgt (Cmd.activate (some ty) (rawAddr v)) = some (KX ty k) := by
+          show some (listenerTarget ty (rawAddr v)) = _; rw [listenerTarget_eq, hkv]
+        have := loc_act env true ty (rawAddr v) v htyp
+        simp only [if_true] at this
+        simp only [foldT_cons', foldT_nil', ht, if_true, this, setAct_true_of_active v ha]
+      rw [hwv]
+      exact (foldT_flatMap_block env (KX ty k) (some v) _ hstep _ (fun x => x = k) _ hskip
+        (by intro x _ hx; subst hx; exact hb)).1
+  · apply foldT_flatMap_skip
+    intro x hx c hc
+    by_cases hxk : x = k
+    · subst hxk; exact absurd hx hin
+    · obtain ⟨v', _, _, _, hkv', hb'⟩ := hblock x hx
+      rcases hb' with hb' | ⟨_, hb'⟩
+      · rw [hb'] at hc; simp at hc
+      · rw [hb'] at hc; simp at hc; subst hc
+        show some (listenerTarget ty (rawAddr v')) ≠ _
+        rw [listenerTarget_eq, hkv']
+        intro h; injection h with h; exact hxk (KX_inj ty _ _ h)
+
+/-- every command of the four listener sections of type `ty'` addresses a listener of type `ty'` -/
+theorem listener_cmds_tgt (env : Env) (A B : St) (hA : WF env A) (hB : WF env B) (ty' : LType)
+    (keys : Target → Option Nat) (hk : KeysFor ty' keys) :
+    ∀ c ∈ diffRemovedL ty' A B keys ++ diffAddedL ty' A B keys ++ diffCommonL ty' A B keys ++ diffReactivate ty' A B keys,
+      ∃ a, tgt c = some (KX ty' a) := by
+  intro c hc
+  apply Classical.byContradiction
+  intro hno
+  -- if `c` addresses no `ty'` listener then folding from any entry `KX ty' a` … use the fold lemmas' skip parts instead:
+  -- direct membership analysis
+  simp only [List.mem_append] at hc
+  rcases hc with ((hc | hc) | hc) | hc
+  · obtain ⟨a, ha⟩ := sec_removedL ty' A B keys c hc
+    exact hno ⟨canon a, by rw [ha, listenerTarget_eq]⟩
+  · simp only [diffAddedL, List.mem_flatMap] at hc
+    obtain ⟨x, hx, hc⟩ := hc
+    have hxb := (List.mem_filter.mp hx).1
+    have hcx := key_canon env ty' keys hk B hB x hxb
+    obtain ⟨v, hv⟩ := (mem_keysOf B hB.1 ty' keys hk x).mp hxb
+    have hty := wf_listener env B hB ty' x v hv
+    rw [listenerTarget_eq, hcx, hv] at hc
+    simp only [List.mem_append] at hc
+    obtain ⟨c0, hc0, htc, _⟩ := addListenerCmd_typed env ty' v hty.1
+    rcases hc with hc | hc
+    · rw [hc0] at hc; simp at hc; subst hc; exact hno ⟨_, by rw [htc, listenerTarget_eq]⟩
+    · split at hc
+      · simp at hc; subst hc; exact hno ⟨canon x, by show some (listenerTarget ty' x) = _; rw [listenerTarget_eq]⟩
+      · simp at hc
+  · simp only [diffCommonL, List.mem_flatMap] at hc
+    obtain ⟨x, hx, hc⟩ := hc
+    have hxa := (List.mem_filter.mp hx).1
+    have hxb : x ∈ keysOf B keys := by simpa using (List.mem_filter.mp hx).2
+    obtain ⟨m, hm⟩ := (mem_keysOf A hA.1 ty' keys hk x).mp hxa
+    obtain ⟨th, hth⟩ := (mem_keysOf B hB.1 ty' keys hk x).mp hxb
+    have hcx := key_canon env ty' keys hk A hA x hxa
+    have htyp := wf_listener env B hB ty' x th hth
+    rw [listenerTarget_eq, hcx, hm, hth] at hc
+    obtain ⟨c0, hc0, htc, _⟩ := addListenerCmd_typed env ty' (setAct false th) (typed_setAct false ty' th htyp.1)
+    simp only [deactivated_eq, hc0, List.mem_append] at hc
+    have hx' : ∃ a, tgt (Cmd.removeListener (some ty') x) = some (KX ty' a) := ⟨canon x, by show some (listenerTarget ty' x) = _; rw [listenerTarget_eq]⟩
+    rcases hc with hc | hc
+    · split at hc
+      · simp only [List.mem_append, List.mem_cons, List.not_mem_nil, or_false] at hc
+        rcases hc with (rfl | rfl) | hc
+        · exact hno hx'
+        · exact hno ⟨_, by rw [htc, listenerTarget_eq]⟩
+        · split at hc
+          · simp at hc; subst hc; exact hno ⟨canon x, by show some (listenerTarget ty' x) = _; rw [listenerTarget_eq]⟩
+          · simp at hc
+      · simp at hc
+    · split at hc
+      · simp at hc; subst hc; exact hno ⟨canon x, by show some (listenerTarget ty' x) = _; rw [listenerTarget_eq]⟩
+      · simp at hc
+  · rw [diffReactivate_eq] at hc
+    simp only [List.mem_flatMap] at hc
+    obtain ⟨x, _, hc⟩ := hc
+    unfold reactBlock at hc
+    split at hc
+    · split at hc
+      · simp at hc; subst hc; exact hno ⟨_, by show some (listenerTarget ty' _) = _; rw [listenerTarget_eq]⟩
+      · simp at hc
+    · split at hc
+      · simp at hc; subst hc; exact hno ⟨_, by show some (listenerTarget ty' _) = _; rw [listenerTarget_eq]⟩
+      · simp at hc
+    · simp at hc
+
+theorem KX_sec (ty : LType) (a : Nat) : sectionOf (KX ty a) = match ty with | .http => 0 | .https => 1 | .tcp => 2 | .udp => 3 := by
+  cases ty <;> rfl
+
+/-- the chain of the four passes of one listener map, with sections that do not address the
+    entry in between -/
+theorem listener_chain (env : Env) (A B : St) (hA : WF env A) (hB : WF env B) (ty : LType)
+    (keys : Target → Option Nat) (hk : KeysFor ty keys) (k : Nat) (X1 X2 X3 X4 X5 Re : List Cmd)
+    (h1 : ∀ w, foldT env (KX ty k) w X1 = w) (h2 : ∀ w, foldT env (KX ty k) w X2 = w)
+    (h3 : ∀ w, foldT env (KX ty k) w X3 = w) (h4 : ∀ w, foldT env (KX ty k) w X4 = w)
+    (h5 : ∀ w, foldT env (KX ty k) w X5 = w)
+    (hRe : ∀ w, ((look B (KX ty k)).isSome → w = look B (KX ty k)) → foldT env (KX ty k) w Re = w) :
+    foldT env (KX ty k) (look A (KX ty k))
+      (X1 ++ diffRemovedL ty A B keys ++ X2 ++ diffAddedL ty A B keys ++ X3 ++ diffCommonL ty A B keys ++ X4 ++ Re ++ X5)
+      = look B (KX ty k) := by
+  simp only [foldT_append, h1, h2, h3, h4, h5]
+  rw [removedL_fold env A B hA hB ty keys hk k]
+  cases hAv : look A (KX ty k) with
+  | none =>
+    simp only [Option.isSome_none, Bool.false_eq_true, false_and, if_false]
+    rw [addedL_fold env A B hA hB ty keys hk k none (fun _ => rfl), hAv]
+    cases hBv : look B (KX ty k) with
+    | none =>
+      simp only [Option.isSome_none, Bool.false_eq_true, and_false, if_false]
+      rw [commonL_fold env A B hA hB ty keys hk k none (by rw [hAv]; simp), hAv]
+      simp only [Option.isSome_none, Bool.false_eq_true, false_and, if_false]
+      exact hRe none (by rw [hBv]; simp)
+    | some vb =>
+      simp only [Option.isSome_some, and_self, if_true]
+      rw [commonL_fold env A B hA hB ty keys hk k _ (by rw [hAv]; simp), hAv]
+      simp only [Option.isSome_none, Bool.false_eq_true, false_and, if_false]
+      exact hRe _ (by rw [hBv]; intro _; rfl)
+  | some va =>
+    cases hBv : look B (KX ty k) with
+    | none =>
+      simp only [Option.isSome_some, true_and, if_true]
+      rw [addedL_fold env A B hA hB ty keys hk k none (fun _ => rfl), hAv]
+      simp only [reduceCtorEq, false_and, if_false]
+      rw [commonL_fold env A B hA hB ty keys hk k none (by rw [hBv]; simp), hBv]
+      simp only [Option.isSome_none, Bool.false_eq_true, and_false, if_false]
+      exact hRe none (by rw [hBv]; simp)
+    | some vb =>
+      simp only [reduceCtorEq, and_false, if_false]
+      rw [addedL_fold env A B hA hB ty keys hk k _ (by rw [hAv]; intro h; cases h), hAv]
+      simp only [reduceCtorEq, false_and, if_false]
+      rw [commonL_fold env A B hA hB ty keys hk k _ (by rw [hAv]; intro _ _; rfl), hAv, hBv]
+      simp only [Option.isSome_some, and_self, if_true]
+      exact hRe _ (by rw [hBv]; intro _; rfl)
+
+theorem KX_ne (ty ty' : LType) (h : ty' ≠ ty) (a k : Nat) : KX ty' a ≠ KX ty k := by
+  cases ty <;> cases ty' <;> simp [KX] at h ⊢
+
+/-- sections of another listener map do not address `KX ty k` -/
+theorem other_type_skip (env : Env) (A B : St) (hA : WF env A) (hB : WF env B) (ty ty' : LType) (hne : ty' ≠ ty)
+    (keys : Target → Option Nat) (hk : KeysFor ty' keys) (k : Nat) :
+    (∀ w, foldT env (KX ty k) w (diffRemovedL ty' A B keys) = w) ∧
+    (∀ w, foldT env (KX ty k) w (diffAddedL ty' A B keys) = w) ∧
+    (∀ w, foldT env (KX ty k) w (diffCommonL ty' A B keys) = w) ∧
+    (∀ w, foldT env (KX ty k) w (diffReactivate ty' A B keys) = w) := by
+  have all := listener_cmds_tgt env A B hA hB ty' keys hk
+  have mk : ∀ (part : List Cmd), (∀ c ∈ part, c ∈ diffRemovedL ty' A B keys ++ diffAddedL ty' A B keys ++
+      diffCommonL ty' A B keys ++ diffReactivate ty' A B keys) → ∀ w, foldT env (KX ty k) w part = w := by
+    intro part hp w
+    apply foldT_skip
+    intro c hc e
+    obtain ⟨a, ha⟩ := all c (hp c hc)
+    rw [ha] at e; injection e with e
+    exact KX_ne ty ty' hne a k e
+  refine ⟨mk _ ?_, mk _ ?_, mk _ ?_, mk _ ?_⟩ <;> intro c hc <;> simp [hc]
+
+/-- sections computed for the non-listener maps do not address a listener entry -/
+theorem nonlistener_skip (env : Env) (A B : St) (ty : LType) (k : Nat) :
+    ∀ w, foldT env (KX ty k) w (diffClusters A B ++ diffBackends A B ++ diffFronts A B false ++ diffFronts A B true ++
+      diffTcpFronts A B false ++ diffTcpFronts A B true ++ diffCerts A B) = w := by
+  intro w
+  have hs : sectionOf (KX ty k) ≤ 3 := by cases ty <;> simp [KX, sectionOf]
+  have sk : ∀ (w : Option Val) (cs : List Cmd) (n : Nat), 4 ≤ n →
+      (∀ c ∈ cs, ∃ t', tgt c = some t' ∧ sectionOf t' = n) → foldT env (KX ty k) w cs = w := by
+    intro w cs n hn h
+    apply foldT_skip_sec
+    intro c hc
+    obtain ⟨t', h1, h2⟩ := h c hc
+    exact ⟨t', h1, by omega⟩
+  simp only [foldT_append]
+  rw [sk _ _ 4 (by omega) (sec_clusters A B), sk _ _ 10 (by omega) (sec_backends A B),
+    sk _ _ 5 (by omega) (sec_fronts A B false), sk _ _ 7 (by omega) (sec_fronts A B true),
+    sk _ _ 8 (by omega) (sec_tcpFronts A B false), sk _ _ 9 (by omega) (sec_tcpFronts A B true),
+    sk _ _ 6 (by omega) (sec_certs A B)]
+
+/-- **listeners**: after replaying `diff A B` on `A`, every listener entry (fields and
+    activation) is the one of `B` -/
+theorem listeners_reach (env : Env) (A B : St) (hA : WF env A) (hB : WF env B) (ty : LType) (k : Nat) :
+    foldT env (KX ty k) (look A (KX ty k)) (diff A B) = look B (KX ty k) := by
+  have nl := nonlistener_skip env A B ty k
+  cases ty
+  case tcp =>
+    obtain ⟨u1, u2, u3, u4⟩ := other_type_skip env A B hA hB .tcp .udp (by decide) isUdpL keysFor_udp k
+    obtain ⟨p1, p2, p3, _⟩ := other_type_skip env A B hA hB .tcp .http (by decide) isHttpL keysFor_http k
+    obtain ⟨s1, s2, s3, _⟩ := other_type_skip env A B hA hB .tcp .https (by decide) isHttpsL keysFor_https k
+    have := listener_chain env A B hA hB .tcp isTcpL keysFor_tcp k [] []
+      (diffRemovedL .udp A B isUdpL ++ diffAddedL .udp A B isUdpL ++ diffRemovedL .http A B isHttpL ++
+        diffAddedL .http A B isHttpL ++ diffRemovedL .https A B isHttpsL ++ diffAddedL .https A B isHttpsL)
+      (diffCommonL .udp A B isUdpL ++ diffCommonL .http A B isHttpL ++ diffCommonL .https A B isHttpsL ++
+        (diffClusters A B ++ diffBackends A B ++ diffFronts A B false ++ diffFronts A B true ++
+          diffTcpFronts A B false ++ diffTcpFronts A B true ++ diffCerts A B))
+      (diffReactivate .udp A B isUdpL) (diffReactivate .tcp A B isTcpL)
+      (fun w => rfl) (fun w => rfl)
+      (by intro w; simp only [foldT_append, u1, u2, p1, p2, s1, s2])
+      (by intro w; simp only [foldT_append, u3, p3, s3, nl])
+      u4 (fun w hw => reactivate_fold env A B hA hB .tcp isTcpL keysFor_tcp k w hw)
+    have e : diff A B = _ := rfl
+    rw [e]; unfold diff
+    simpa only [List.append_assoc, List.nil_append] using this
+  case udp =>
+    obtain ⟨t1, t2, t3, t4⟩ := other_type_skip env A B hA hB .udp .tcp (by decide) isTcpL keysFor_tcp k
+    obtain ⟨p1, p2, p3, _⟩ := other_type_skip env A B hA hB .udp .http (by decide) isHttpL keysFor_http k
+    obtain ⟨s1, s2, s3, _⟩ := other_type_skip env A B hA hB .udp .https (by decide) isHttpsL keysFor_https k
+    have := listener_chain env A B hA hB .udp isUdpL keysFor_udp k
+      (diffRemovedL .tcp A B isTcpL ++ diffAddedL .tcp A B isTcpL) []
+      (diffRemovedL .http A B isHttpL ++ diffAddedL .http A B isHttpL ++ diffRemovedL .https A B isHttpsL ++
+        diffAddedL .https A B isHttpsL ++ diffCommonL .tcp A B isTcpL)
+      (diffCommonL .http A B isHttpL ++ diffCommonL .https A B isHttpsL ++
+        (diffClusters A B ++ diffBackends A B ++ diffFronts A B false ++ diffFronts A B true ++
+          diffTcpFronts A B false ++ diffTcpFronts A B true ++ diffCerts A B) ++ diffReactivate .tcp A B isTcpL)
+      [] (diffReactivate .udp A B isUdpL)
+      (by intro w; simp only [foldT_append, t1, t2]) (fun w => rfl)
+      (by intro w; simp only [foldT_append, p1, p2, s1, s2, t3])
+      (by intro w; simp only [foldT_append, p3, s3, nl, t4])
+      (fun w => rfl) (fun w hw => reactivate_fold env A B hA hB .udp isUdpL keysFor_udp k w hw)
+    unfold diff
+    simpa only [List.append_assoc, List.nil_append, List.append_nil] using this
+  case http =>
+    obtain ⟨t1, t2, t3, t4⟩ := other_type_skip env A B hA hB .http .tcp (by decide) isTcpL keysFor_tcp k
+    obtain ⟨u1, u2, u3, u4⟩ := other_type_skip env A B hA hB .http .udp (by decide) isUdpL keysFor_udp k
+    obtain ⟨s1, s2, s3, _⟩ := other_type_skip env A B hA hB .http .https (by decide) isHttpsL keysFor_https k
+    have := listener_chain env A B hA hB .http isHttpL keysFor_http k
+      (diffRemovedL .tcp A B isTcpL ++ diffAddedL .tcp A B isTcpL ++ diffRemovedL .udp A B isUdpL ++ diffAddedL .udp A B isUdpL) []
+      (diffRemovedL .https A B isHttpsL ++ diffAddedL .https A B isHttpsL ++ diffCommonL .tcp A B isTcpL ++
+        diffCommonL .udp A B isUdpL)
+      (diffCommonL .https A B isHttpsL ++
+        (diffClusters A B ++ diffBackends A B ++ diffFronts A B false ++ diffFronts A B true ++
+          diffTcpFronts A B false ++ diffTcpFronts A B true ++ diffCerts A B) ++ diffReactivate .tcp A B isTcpL ++
+        diffReactivate .udp A B isUdpL)
+      [] []
+      (by intro w; simp only [foldT_append, t1, t2, u1, u2]) (fun w => rfl)
+      (by intro w; simp only [foldT_append, s1, s2, t3, u3])
+      (by intro w; simp only [foldT_append, s3, nl, t4, u4])
+      (fun w => rfl) (fun w _ => rfl)
+    unfold diff
+    simpa only [List.append_assoc, List.nil_append, List.append_nil] using this
+  case https =>
+    obtain ⟨t1, t2, t3, t4⟩ := other_type_skip env A B hA hB .https .tcp (by decide) isTcpL keysFor_tcp k
+    obtain ⟨u1, u2, u3, u4⟩ := other_type_skip env A B hA hB .https .udp (by decide) isUdpL keysFor_udp k
+    obtain ⟨p1, p2, p3, _⟩ := other_type_skip env A B hA hB .https .http (by decide) isHttpL keysFor_http k
+    have := listener_chain env A B hA hB .https isHttpsL keysFor_https k
+      (diffRemovedL .tcp A B isTcpL ++ diffAddedL .tcp A B isTcpL ++ diffRemovedL .udp A B isUdpL ++ diffAddedL .udp A B isUdpL ++
+        diffRemovedL .http A B isHttpL ++ diffAddedL .http A B isHttpL) []
+      (diffCommonL .tcp A B isTcpL ++ diffCommonL .udp A B isUdpL ++ diffCommonL .http A B isHttpL)
+      ((diffClusters A B ++ diffBackends A B ++ diffFronts A B false ++ diffFronts A B true ++
+          diffTcpFronts A B false ++ diffTcpFronts A B true ++ diffCerts A B) ++ diffReactivate .tcp A B isTcpL ++
+        diffReactivate .udp A B isUdpL)
+      [] []
+      (by intro w; simp only [foldT_append, t1, t2, u1, u2, p1, p2]) (fun w => rfl)
+      (by intro w; simp only [foldT_append, t3, u3, p3])
+      (by intro w; simp only [foldT_append, nl, t4, u4])
+      (fun w => rfl) (fun w _ => rfl)
+    unfold diff
+    simpa only [List.append_assoc, List.nil_append, List.append_nil] using this
+
 end Sozu.State
